@@ -41,6 +41,9 @@ use std::cell::Cell;
 use std::panic::{catch_unwind, AssertUnwindSafe};
 use std::rc::Rc;
 
+// standard-trait methods over several object instances (track traits): handle ops `d…`
+pub mod traits;
+
 #[derive(Clone, Debug)]
 pub enum Op {
     Push(u32),
@@ -273,6 +276,21 @@ struct SdExec {
     dead: bool,
     /// the deques of zero-sized items (`z...` ops)
     z: ZSt,
+    /// further object instances `d0, d1, …` (handle ops, `fam_sdeque/traits.rs`)
+    objs: Vec<St>,
+}
+
+impl SdExec {
+    fn fresh() -> SdExec {
+        SdExec { cur: St::new(), snaps: vec![St::new()], dead: false, z: ZSt::from_len(0), objs: Vec::new() }
+    }
+}
+
+/// C15: no operation sequence may panic, so every op may run while the thread is unwinding.
+impl crate::unwind::Probe for SdExec {
+    fn unwind_safe(&self, _w: &[&str]) -> bool {
+        true
+    }
 }
 
 impl SdExec {
@@ -616,6 +634,9 @@ impl Exec for SdExec {
         if self.dead {
             return StepOut::obs("dead");
         }
+        if let Some(so) = self.step_traits(w) {
+            return so;
+        }
         match w {
             ["iterscript", script] => self.run_iterscript(script),
             ["at", k, rest @ ..] => {
@@ -784,7 +805,7 @@ impl Family for SDequeFamily {
     }
 
     fn new_exec(&self) -> Box<dyn Exec> {
-        Box::new(SdExec { cur: St::new(), snaps: vec![St::new()], dead: false, z: ZSt::from_len(0) })
+        crate::unwind::UnwindExec::boxed(SdExec::fresh)
     }
 
     /// All op sequences over the 11-symbol alphabet:
@@ -807,6 +828,30 @@ impl Family for SDequeFamily {
         for &len in ZEDGES.iter() {
             for first in 0..ZNSYM {
                 cases.push(ztree_case(len, first, zdepth));
+            }
+        }
+        // standard traits (track traits): source state x destination state x {clone_from onto cur,
+        // clone_from onto a handle, clone, take}; one more round with the trait call made while unwinding
+        for src in 0..traits::NPREP {
+            for dst in 0..traits::NPREP {
+                for how in 0..4 {
+                    cases.push(traits::clone_matrix_case(src, dst, how, false));
+                    if thorough || (src + dst + how) % 4 == 0 {
+                        cases.push(traits::clone_matrix_case(src, dst, how, true));
+                    }
+                }
+            }
+        }
+        // every op called from a destructor while the thread unwinds: all sequences of 3 symbols
+        for a in 0..NSYM {
+            for b in 0..NSYM {
+                let mut ops = Vec::new();
+                for c in 0..NSYM {
+                    ops.push("clear".to_string());
+                    ops.extend(["push 91", "push 92", "push 93", "pop_front"].iter().map(|s| s.to_string()));
+                    ops.extend([symbol(a, 0), symbol(b, 1), symbol(c, 2)].iter().map(|s| format!("unwinding {}", s)));
+                }
+                cases.push(ops);
             }
         }
         // iterator protocol (track gen3): every script of <= 2 (thorough: 3) non-consuming steps over the
@@ -852,6 +897,11 @@ impl Family for SDequeFamily {
         let mut len: usize = 0;
         let mut next = 1u32;
         let mut ops = Vec::new();
+        // track traits: a third of the cases move values between several objects (handle ops), a
+        // quarter make some calls while the thread is unwinding
+        let multi = rng.chance(1, 3);
+        let unwinding = rng.chance(1, 4);
+        let mut olens: Vec<usize> = Vec::new();
         if rng.chance(1, 8) {
             let n = rng.range(0, 9) as usize;
             let l: Vec<u32> = (0..n).map(|_| { next += 1; next - 1 }).collect();
@@ -859,6 +909,14 @@ impl Family for SDequeFamily {
             len = n;
         }
         for _ in 0..nops {
+            if multi && rng.chance(1, 6) {
+                let mut lens = vec![len];
+                lens.extend(olens.iter().copied());
+                ops.push(traits::gen_mop(rng, &mut lens));
+                len = lens[0];
+                olens = lens[1..].to_vec();
+                continue;
+            }
             if rng.below(10) < push_w {
                 ops.push(format!("push {}", next));
                 next += 1;
@@ -911,6 +969,12 @@ impl Family for SDequeFamily {
             }
             if rng.chance(1, 12) {
                 ops.push(format!("iterscript {}", crate::iterscript::gen_script(rng, len, true)));
+            }
+        }
+        if unwinding {
+            ops = crate::unwind::sprinkle(rng, ops, 1, 4, |_| true);
+            if rng.chance(1, 4) {
+                ops.push("scoped_panic push 1 ; push 2 ; push 3 ; pop_front ; dstore 0 ; dclone_from 0".into());
             }
         }
         ops
